@@ -166,7 +166,15 @@ pub fn recreate_tree_for_block<D: PredictionDecoder>(
 fn calc_tc_lengths_without_trailing_zeros(bit_lengths: &[u8]) -> usize {
     let mut len = bit_lengths.len();
     // remove trailing zeros
-    while len > 4 && bit_lengths[TREE_CODE_ORDER_TABLE[len - 1]] == 0 {
+    // the calculated lengths are trimmed after the last used symbol, so the slice can be
+    // shorter than 19: a symbol beyond its end has length zero
+    while len > 4
+        && bit_lengths
+            .get(TREE_CODE_ORDER_TABLE[len - 1])
+            .copied()
+            .unwrap_or(0)
+            == 0
+    {
         len -= 1;
     }
 
